@@ -636,3 +636,31 @@ func viaStruct(v ssa.Value) ssa.Value {
 	}
 	return v
 }
+
+// noSuccessBefore: no return of a literal nil error is reachable from fn's
+// entry without passing one of the read calls, except across the allowed edges
+// (the object is gone / being deleted). A decision that must rest on what was
+// read in this very invocation cannot be taken from remembered state.
+func (c *Ctx) noSuccessBefore(fn *ssa.Function, reads []ssa.CallInstruction, allowed []cfgx.Edge, construct, okMsg, badMsg string) {
+	if len(reads) == 0 {
+		c.R.Unknown(construct, c.pos(fn.Pos()), "the read this decision rests on was not found")
+		return
+	}
+	through := map[*ssa.BasicBlock]bool{}
+	for _, r := range reads {
+		through[r.Block()] = true
+	}
+	var early *ssa.Return
+	for b := range cfgx.ReachFromEntry(fn, through, allowed) {
+		if r, ok := b.Instrs[len(b.Instrs)-1].(*ssa.Return); ok && !through[b] && nonNilError(r) == "nil" {
+			if early == nil || r.Pos() < early.Pos() {
+				early = r
+			}
+		}
+	}
+	p := reads[0].Pos()
+	if early != nil {
+		p = early.Pos()
+	}
+	c.R.Check(early == nil, construct, c.pos(p), okMsg, badMsg)
+}
